@@ -156,6 +156,21 @@ CHECKS['C18'] = dict(
     text='Generated documents of the five kinds are converted back and forth and loaded from either form. Exploration.',
     note='Valid document = passes libyang validation; loader objects compared with 1e-5 relative slack.', ref='3/C18')
 
+CHECKS['C19'] = dict(
+    technique='runtime monitor: response document and CSV of real planning() runs compared with an independent '
+              'response builder reading the propagated paths, both receivers and the request objects; aggregation '
+              'recomputed from the input; CSV pass flag differential with a moved threshold',
+    text='Every response entry and CSV row of generated batches (served, every blocking reason, bidirectional, '
+         'aggregated, multi-slot) is rebuilt independently and compared exactly. Exploration.',
+    note='Order of ids inside a joined id not judged.', ref='3/C19')
+CHECKS['C20'] = dict(
+    technique='runtime monitor: generated workbooks converted by the real converter and compared with an independent '
+              'workbook model (elements, per-direction values, wiring, requests); one-rule-violated workbooks must '
+              'raise; .xls vs .xlsx differential on the shipped files; converted topologies are loaded and designed',
+    text='Each generated workbook / service sheet is one observation judged against the description it was written '
+         'from. Exploration.',
+    note='xlrd path only with shipped .xls files (no offline .xls writer); service routes name ROADM sites.', ref='3/C20')
+
 NOT_APPLICABLE = {
 }
 
